@@ -434,6 +434,10 @@ def inverse_row_sums(out):
         return None
     if not np.all(np.isfinite(inv)):
         return None
+    # the estimate scales a tolerance: when the float inverse is not an inverse to several digits (finite elements a
+    # ten-millionth of the bar long next to ordinary ones) it says nothing, and the case is compared with the model only
+    if np.abs(K @ inv - np.eye(n)).max() > 1e-6:
+        return None
     return [Fr(float(x)) for x in np.abs(inv).sum(axis=1)]
 
 
